@@ -9,7 +9,7 @@ CREF = "ref_struct_tag(identifier=tag-String|#constant=1_1)"
 def U(name, fn, contract, reach=(), **kw):
     d = dict(name="String." + name, prop="C06", entry="h_" + name.split("@")[0], srcs=SRCS,
              enforce=(fn, contract) if fn else None, replace=[MC, MM, MCMP], kind="proof", tier="quick",
-             reach=list(reach), timeout=1500, no_native=True, funcs=[fn.split("(")[0]] if fn else [], min_obligations=1)
+             reach=list(reach), timeout=3600, no_native=True, funcs=[fn.split("(")[0]] if fn else [], min_obligations=1)
     d.update(kw)
     return d
 
